@@ -230,3 +230,19 @@ Theorem C05_code_axes_of_the_declarations :
     filters_at_period plan = period.
 Proof. exact axes_of_the_declarations. Qed.
 Print Assumptions C05_code_axes_of_the_declarations.
+
+(* ---- model.grids follows variable_info: the regenerated get_gridspecs / get_grids (Gen/VariableInfo.v) ------------------------------- *)
+From LCM Require Import Proofs.C05_Grids.
+(* for all declaration orders: model.grids lists the variables in the order of variable_info, each with the array of its own grid       *)
+Theorem C05_code_grids_follow_variable_info :
+  forall (G A : Type) (is_cont : G -> bool) (to_jax : G -> A) (is_stochastic_next : string -> bool)
+         (auxiliary_variables filtered_variables : list string) (S C : list (string * G)),
+  NoDup (map fst S ++ map fst C) ->
+  exists vi grids,
+    get_variable_info is_stochastic_next auxiliary_variables filtered_variables
+      (map (fun sg : string * G => (fst sg, is_cont (snd sg))) S) (map (fun sg : string * G => (fst sg, is_cont (snd sg))) C) = Some vi /\
+    get_grids is_stochastic_next auxiliary_variables filtered_variables is_cont to_jax S C = Some grids /\
+    map fst grids = map vname vi /\
+    forall k a, In (k, a) grids -> exists g, In (k, g) (S ++ C)%list /\ a = to_jax g.
+Proof. exact grids_follow_variable_info. Qed.
+Print Assumptions C05_code_grids_follow_variable_info.
